@@ -296,3 +296,63 @@ func SortedFuncs(m map[*ssa.Function]bool) []*ssa.Function {
 	})
 	return out
 }
+
+// HelperOf: an unexported function that is not itself in allowed counts as part of an allowed function when every one
+// of its callers is an allowed function or, transitively, such a helper (a split-out piece of it). Returns the allowed
+// owner it belongs to.
+func (p *Program) HelperOf(fn *ssa.Function, allowed func(name string) bool) (string, bool) {
+	cg := p.CallGraph()
+	seen := map[*ssa.Function]bool{}
+	var owner string
+	var rec func(f *ssa.Function, depth int) bool
+	rec = func(f *ssa.Function, depth int) bool {
+		if depth > 4 || seen[f] {
+			return depth <= 4
+		}
+		seen[f] = true
+		top := f
+		for top.Parent() != nil {
+			top = top.Parent()
+		}
+		if allowed(FuncName(top)) {
+			if owner == "" {
+				owner = FuncName(top)
+			}
+			return true
+		}
+		if obj := top.Object(); obj == nil || obj.Exported() {
+			return false
+		}
+		n := cg.Nodes[top]
+		if n == nil || len(n.In) == 0 {
+			return false
+		}
+		for _, e := range n.In {
+			if e.Caller == nil || e.Caller.Func == nil {
+				return false
+			}
+			if !rec(e.Caller.Func, depth+1) {
+				return false
+			}
+		}
+		return true
+	}
+	top := fn
+	for top.Parent() != nil {
+		top = top.Parent()
+	}
+	if obj := top.Object(); obj == nil || obj.Exported() {
+		return "", false
+	}
+	n := cg.Nodes[top]
+	if n == nil || len(n.In) == 0 {
+		return "", false
+	}
+	seen[top] = true
+	for _, e := range n.In {
+		if e.Caller == nil || e.Caller.Func == nil || !rec(e.Caller.Func, 1) {
+			return "", false
+		}
+	}
+	return owner, owner != ""
+}
